@@ -35,7 +35,7 @@ ASSUMPTIONS = [
     "LMDB backend over /verif/shim; SQL = SQLite",
 ]
 MIN_NONTRIVIAL = {"quick": 150, "thorough": 1500}
-REQUIRED_COUNTERS = ["cells.save", "cells.query_stored", "cells.query_live", "validator.frames_checked", "readback.assignments"]
+REQUIRED_COUNTERS = ["cells.save", "cells.query_stored", "cells.query_live", "cells.can_do", "validator.frames_checked", "readback.assignments"]
 SHARD_TIMEOUT = {"quick": 600, "thorough": 3200}
 ALPHA = "arws"
 SUBSETS = ["".join(c) for n in range(1, 5) for c in itertools.combinations(ALPHA, n)]
@@ -70,6 +70,10 @@ async def authenticate(conn, key, rig):
     return True
 
 
+def rp_early(backend, save_roles, query_roles, seed):
+    return {"backend": backend, "save": save_roles, "query": query_roles, "seed": seed}
+
+
 async def run_map(backend, save_roles, query_roles, counters, seed):
     service = ref.key_from_seed("service")
     rig = R.Rig(backend=backend, config={
@@ -88,7 +92,9 @@ async def run_map(backend, save_roles, query_roles, counters, seed):
     ov.CALLS.clear()
     try:
         # role assignment for a sample of role subsets
-        role_sets = r.sample(SUBSETS, 5) + [None]
+        # five random role subsets, the EMPTY assignment (an authenticated key with no role
+        # at all must be refused everything) and the unauthenticated connection
+        role_sets = r.sample(SUBSETS, 5) + ["", None]
         keys = {}
         for rs in role_sets:
             if rs is not None:
@@ -106,15 +112,50 @@ async def run_map(backend, save_roles, query_roles, counters, seed):
         rp = {"backend": backend, "save": save_roles, "query": query_roles, "seed": seed}
 
         def roles_of(rs):
+            if rs == "@intruder":
+                return {"a"}  # never assigned by the operator: default role
             return set(rs) if rs is not None else {"a"}
 
+        # ---- the decision function itself, for every role set incl. the empty one ----------------------
+        for rs_ in SUBSETS + [""]:
+            for action, needed in (("save", save_roles), ("query", query_roles)):
+                tok = {"pubkey": "00" * 32, "roles": set(rs_), "now": time.time()}
+                got = await rig.storage.authenticator.can_do(tok, action)
+                bump(cells, "can_do")
+                if not (set(rs_) & set(needed)):
+                    nontrivial.append(h([backend, "can_do", needed, rs_, action]))
+                if bool(got) != bool(set(rs_) & set(needed)):
+                    viols.append({"key": "%s/can_do/%s" % (backend, "empty-role-set" if not rs_ else "role-set"),
+                                  "msg": "[%s] can_do(roles=%r, %s) -> %s but %s requires one of %r" % (backend, rs_, action, got, action, needed), "replay": rp_early(backend, save_roles, query_roles, seed)})
+        for tok in (None, {}):
+            for action, needed in (("save", save_roles), ("query", query_roles)):
+                got = await rig.storage.authenticator.can_do(tok, action)
+                if bool(got) != ("a" in needed):
+                    viols.append({"key": "%s/can_do/no-token" % backend, "msg": "[%s] can_do(%r, %s) -> %s with %s=%r" % (backend, tok, action, got, action, needed), "replay": rp_early(backend, save_roles, query_roles, seed)})
+        # ---- a client cannot assign itself roles ----------------------------------------------------
+        # anybody who may save can publish a look-alike of the relay's role-assignment event for
+        # a key the operator never assigned; that key must keep the default role afterwards
+        intruder = ref.key_from_seed("c14-intruder-%d" % seed)
+        forged = ref.make_event(intruder, kind=31494, created_at=int(time.time()), tags=[["d", "auth:" + intruder.pk], ["t", "auth"], ["p", intruder.pk]], content="arws")
+        poster = next((c for rs_, c in conns.items() if (set(rs_) if rs_ is not None else {"a"}) & set(save_roles)), None)
+        if poster is not None:
+            await poster.cmd(["EVENT", forged])
+            await rig.quiesce()
+            counters["forged_role_events_posted"] = counters.get("forged_role_events_posted", 0) + 1
+            got = await rig.storage.get_auth_roles(intruder.pk)
+            if got != {"a"}:
+                viols.append({"key": "%s/self-assigned-roles/readback" % backend, "msg": "[%s] after a client posted its own kind-31494 'auth' event the roles of that key read back as %s" % (backend, sorted(got)), "replay": rp_early(backend, save_roles, query_roles, seed)})
+            ci = rig.connect("t-intruder")
+            await authenticate(ci, intruder, rig)
+            conns["@intruder"] = ci
         # ---- save ----------------------------------------------------------------------------
         submitted = {}
         for rs, c in conns.items():
-            author = keys.get(rs) or ref.key_from_seed("c14-anon")
+            author = keys.get(rs) or (intruder if rs == "@intruder" else ref.key_from_seed("c14-anon"))
             ev = ref.make_event(author, kind=1, created_at=gen.T0 + len(submitted), content="by %s" % (rs or "anon"))
             n0 = rig.rec.n
-            await c.cmd(["EVENT", ev])
+            if not c.exited:
+                await c.cmd(["EVENT", ev])
             oks = R.ok_frames(c, n0)
             ok = oks[-1][1][2] if oks else None
             reason = oks[-1][1][3] if oks else ""
@@ -122,6 +163,11 @@ async def run_map(backend, save_roles, query_roles, counters, seed):
         await rig.quiesce()
         d = dump.dump(rig)
         for rs, (ev, ok, reason) in submitted.items():
+            if conns[rs].exited:
+                counters["connections_closed_by_relay"] = counters.get("connections_closed_by_relay", 0) + 1
+                if ev["id"] in d["events"]:
+                    viols.append({"key": "%s/save-stored-from-closed-connection" % backend, "msg": "[%s] event of a connection the relay closed was stored" % backend, "replay": rp})
+                continue
             allowed = bool(roles_of(rs) & set(save_roles))
             bump(cells, "save")
             if not allowed:
@@ -136,6 +182,8 @@ async def run_map(backend, save_roles, query_roles, counters, seed):
         # ---- query (stored) ------------------------------------------------------------------------
         stored_ids = set(d["events"].keys())
         for rs, c in conns.items():
+            if c.exited:
+                continue
             allowed = bool(roles_of(rs) & set(query_roles))
             n0 = rig.rec.n
             await c.cmd(["REQ", "q", {"kinds": [1, 31494]}])
